@@ -1393,11 +1393,16 @@ def observe(ch, ext, sh, exact):
            'big_H': np.array(ch.big_H), 'pathloss': None if ch.pathloss is None else np.array(ch.pathloss),
            'noise_var': ch.noise_var, 'big_W': None if ch.big_W is None else np.array(ch.big_W)}
     H = ch.H
+    Kt = len(sh.ntf)
+    few = sh.K * Kt > 400      # many users: every block of H, but get_Hkl / get_Hk at the corners only
+    ks = sorted({0, sh.K // 2, sh.K - 1}) if few else range(sh.K)
     for k in range(sh.K):
-        obs['Hk%d' % k] = np.array(ch.get_Hk(k))
-        for l in range(len(sh.ntf)):
+        if k in ks:
+            obs['Hk%d' % k] = np.array(ch.get_Hk(k))
+        for l in range(Kt):
             obs['H%d,%d' % (k, l)] = np.array(H[k, l])
-            obs['Hkl%d,%d' % (k, l)] = np.array(ch.get_Hkl(k, l))
+            if not few or (k in ks and l in (0, Kt // 2, Kt - 1)):
+                obs['Hkl%d,%d' % (k, l)] = np.array(ch.get_Hkl(k, l))
     if ext:
         obs['extIntK'] = int(ch.extIntK)
         obs['big_H_no_ext_int'] = np.array(ch.big_H_no_ext_int)
@@ -1776,7 +1781,7 @@ def run_oracle(ctx, case, key, budget=[0]):
             ctx.branch('oracle-fail-not-listed')
             continue
         seen.add((call, cls))
-        small = minimise(case, call, cls)
+        small = dict(case, ops=case['ops'][:i + 1]) if case.get('mode') == 'big' else minimise(case, call, cls)
         ctx.fail(call, cls, small, detail)
         ctx.branch('oracle-fail:' + call)
     if not viol:
